@@ -1113,3 +1113,72 @@ Lemma bpm_key_spec_both hash k :
      bg_hash_size alg = Some (zlen buf) /\ k_alg k = c16_bg_alg_rsa /\ 4 <= zlen (k_data k) /\
      buf = hash alg (zskipn 4 (k_data k))).
 Proof. split; intros; [apply bpm_key_spec|apply bg_bpm_key_spec]. Qed.
+
+(* ------------------------------------------------------------------ *)
+(* token keys: bytes after the signature and the signed prefix do not matter *)
+(* ------------------------------------------------------------------ *)
+
+Lemma rd_nonneg o w b : bytes_ok b = true -> 0 <= rd o w b.
+Proof. intros H. unfold rd. apply le_dec_bound. apply bytes_ok_sub; auto. Qed.
+
+Lemma agree_all_eq (a b : bytes) : agree_on [(0, zlen a)] a b -> a = b.
+Proof.
+  intros [L H]. apply nth_error_ext. intros i.
+  destruct (Z.of_nat i <? zlen a) eqn:E.
+  - apply H. exists (0, zlen a). split; [left; reflexivity|]. cbn [fst snd]. lia.
+  - assert (nth_error a i = None) by (apply nth_error_None; unfold zlen in *; lia).
+    assert (nth_error b i = None) by (apply nth_error_None; unfold zlen in *; lia). congruence.
+Qed.
+
+Lemma parse_token_agree raw raw' k pos : bytes_ok raw = true ->
+  parse_token_or_root raw = Ok (k, pos) -> agree_on [(0, pos)] raw raw' ->
+  parse_token_or_root raw' = Ok (k, pos).
+Proof.
+  intros OK P [L H]. pose proof (parse_token_spec _ _ _ P) as (E1 & E2 & M1 & M2 & Pp & Pl & _).
+  pose proof (rd_nonneg 56 4 raw OK) as N1. pose proof (rd_nonneg 60 4 raw OK) as N2.
+  assert (D1 : 0 <= rd 56 4 raw / 8) by (apply Z.div_pos; lia).
+  assert (D2 : 0 <= rd 60 4 raw / 8) by (apply Z.div_pos; lia).
+  rewrite E1, E2 in Pp. unfold token_header_len in Pp.
+  assert (S : forall o l, 0 <= o -> 0 <= l -> o + l <= pos -> sub o l raw' = sub o l raw).
+  { intros o l Ho Hl Hb. symmetry. apply sub_agree; auto. intros i Hi. apply H.
+    exists (0, pos). split; [left; reflexivity|]. cbn [fst snd]. lia. }
+  assert (R : forall o, 0 <= o -> o + 4 <= pos -> rd o 4 raw' = rd o 4 raw).
+  { intros o Ho Hb. unfold rd. f_equal. apply S; simpl; lia. }
+  rewrite <- P. unfold parse_token_or_root, token_header_len. rewrite <- L.
+  rewrite !R by lia. rewrite !S by lia. reflexivity.
+Qed.
+
+Section PSBToken.
+Variable verify : pubkey -> Z -> Z -> bytes -> bytes -> bool.
+
+Lemma token_noninterference ks raw raw' : bytes_ok raw = true ->
+  agree_on (token_cover ks raw) raw raw' ->
+  token_key verify ks raw = token_key verify ks raw'.
+Proof.
+  intros OK A. unfold token_cover in A.
+  destruct (parse_token_or_root raw) as [[k pos]|e|s|] eqn:P;
+    try (apply agree_all_eq in A; subst; reflexivity).
+  pose proof A as [L H].
+  assert (P' : parse_token_or_root raw' = Ok (k, pos)).
+  { apply (parse_token_agree raw raw' k pos OK P). apply (agree_on_sub _ _ _ _ ltac:(intros x [<-|[]]; left; reflexivity) A). }
+  pose proof (parse_token_spec _ _ _ P) as (E1 & E2 & M1 & M2 & Pp & Pl & _).
+  pose proof (rd_nonneg 56 4 raw OK) as N1. pose proof (rd_nonneg 60 4 raw OK) as N2.
+  assert (P0 : 0 <= pos).
+  { rewrite Pp, E1, E2. unfold token_header_len.
+    pose proof (Z.div_pos (rd 56 4 raw) 8 N1 ltac:(lia)). pose proof (Z.div_pos (rd 60 4 raw) 8 N2 ltac:(lia)). lia. }
+  unfold token_key. rewrite P, P'. cbn [bind fst snd].
+  destruct (get_key ks (pk_certid k)) as [sk|] eqn:GK; auto.
+  destruct (negb (psb_key_valid sk)); auto.
+  rewrite <- L.
+  destruct (zlen raw <? pos + zlen (pk_modulus sk)); auto.
+  set (len_signed := u32 (token_header_len + u32 (2 * pk_modsize k) / 8)) in *.
+  destruct (zlen raw <? len_signed); auto.
+  rewrite (slice_agree raw raw' 0 len_signed L).
+  2:{ intros i Hi. apply H. exists (0, len_signed). split; [right; right; left; reflexivity|exact Hi]. }
+  rewrite (sub_agree raw raw' pos (zlen (pk_modulus sk))); auto.
+  - apply zlen_nonneg.
+  - intros i Hi. apply H. exists (0, pos + zlen (pk_modulus sk)).
+    split; [right; left; reflexivity|]. cbn [fst snd]. lia.
+Qed.
+
+End PSBToken.
